@@ -58,6 +58,11 @@ type Enc struct {
 	curState   *State
 	curFrame   *frame
 	noObl      int // >0: suppress obligations (spec-function inlining)
+	entryLets  map[string]Val
+	ghostObjs  int
+	inQuant    int
+	invDepth   int
+	usedTypeInvs map[string]bool
 	topFrame   *frame
 	topName    string
 	usedContracts map[string]bool
@@ -70,7 +75,7 @@ type Enc struct {
 func newEnc(w *World, fn *ssa.Function, fc *FuncContract) *Enc {
 	return &Enc{w: w, top: fn, fc: fc, ctr: map[string]int{}, entryHeaps: map[string]*Heap{}, heapKinds: map[string]Kind{},
 		lemmaDone: map[string]bool{}, strLits: map[string]string{}, fLits: map[string]string{}, siteCtr: map[string]int{},
-		usedContracts: map[string]bool{}, usedLib: map[string]bool{}, iters: map[*ssa.Range]*iterInfo{}}
+		usedTypeInvs: map[string]bool{}, usedContracts: map[string]bool{}, usedLib: map[string]bool{}, iters: map[*ssa.Range]*iterInfo{}}
 }
 
 func (e *Enc) emit(l string) { e.lines = append(e.lines, l) }
@@ -104,12 +109,15 @@ func (e *Enc) assert(t string) {
 	if t == "true" {
 		return
 	}
+	if e.inQuant > 0 && strings.Contains(t, "!q") {
+		return // would mention a bound variable outside its scope
+	}
 	e.emit("(assert " + t + ")")
 }
 
 // assume adds a fact guarded by the current reach condition.
 func (e *Enc) assume(t string) {
-	if t == "true" {
+	if t == "true" || e.inQuant > 0 {
 		return
 	}
 	e.assert(implies(e.curReach, t))
